@@ -7,9 +7,12 @@ From SioV Require Import Base.GoSem Sio.Middleware Sio.MiddlewareProofs Sio.Midd
 
     Quantifiers: any number of admission threads [ts0] (each: a socket id, a connection, and what
     each registered middleware would do for this socket/handshake - Join calls on named rooms,
-    then accept or reject with an error, a string or structured data; chains of ANY length), with
+    Join calls started on goroutines of its own (which race with the rest of the admission and with
+    the clean-up after a rejection, under the socket's joinMu), then accept or reject with an error,
+    a string or structured data; chains of ANY length), with
     pairwise distinct socket ids, all about to start ([fresh]); ANY schedule [sched] interleaving
-    their steps (one step = one critical section of the code) and their handler goroutines;
+    their steps (one step = one critical section of the code), their handler goroutines and the
+    Join goroutines started by their middlewares;
     [s], [ts] = namespace state and threads at that point. *)
 
 (** If a socket is visible in any way - listed in the namespace, member of its own room, flagged
@@ -54,19 +57,26 @@ Theorem C12_connect_error_carries_rejection : forall ts0 sched s ts t m,
 Proof. exact connect_error_carries_rejection. Qed.
 
 (** A rejected socket leaves nothing - already before CONNECT_ERROR is sent, and for ever after
-    (the statement holds at every later point of every schedule). *)
+    (the statement holds at every later point of every schedule): in particular a Join that a
+    middleware started asynchronously and that is still in progress, or starts later, cannot put
+    the socket back into the adapter - the clean-up waits for joinMu, disables joins, THEN leaves. *)
 Theorem C12_rejected_leaves_nothing : forall ts0 sched s ts t r,
   fresh ts0 -> run sched (init ts0) = (s, ts) -> In t ts ->
   t_pc t = PRejected r \/ t_pc t = PSendError r ->
   gone s (t_sid t).
 Proof. exact rejected_leaves_nothing. Qed.
 
-(** Progress: from ANY state, an admission scheduled alone for (chain length + 8) steps has
-    terminated, admitted or rejected ... *)
-Theorem C12_admission_completes : forall n s ts t, nth_error ts n = Some t ->
-  exists t', nth_error (snd (run (repeat (n, false) (length (t_chain t) + 8)) (s, ts))) n = Some t' /\
+(** Progress: from ANY state in which no Join goroutine holds the socket's joinMu, an admission
+    scheduled alone for (chain length + 8) steps has terminated, admitted or rejected; and a Join
+    goroutine that holds joinMu releases it with its next step ... *)
+Theorem C12_admission_completes : forall n s ts t, nth_error ts n = Some t -> held t = false ->
+  exists t', nth_error (snd (run (repeat (n, WMain) (length (t_chain t) + 8)) (s, ts))) n = Some t' /\
              (t_pc t' = PAdmitted \/ exists r, t_pc t' = PRejected r).
 Proof. exact admission_completes. Qed.
+
+Theorem C12_join_releases : forall j t s rs, nth_error (t_js t) j = Some (rs, JHold) ->
+  nth_error (t_js (fst (step_join j t s))) j = Some (rs, JDone).
+Proof. exact join_releases. Qed.
 
 (** ... and what the two outcomes mean, under every schedule. *)
 Theorem C12_admitted_state : forall ts0 sched s ts t,
@@ -127,6 +137,12 @@ Theorem C12_model_satisfies_oracle_small : forall chain,
   In chain (chains_upto 3) -> oracle (obs_of chain) = true /\ agree (obs_of chain) = true.
 Proof. exact model_satisfies_oracle_small. Qed.
 
+(** ... and for every chain of length <= 2 over the alphabet that also has asynchronous Joins (in
+    progress during the rest of the chain / started after the answer): 601 chains. *)
+Theorem C12_model_async_satisfies_oracle_small : forall chain,
+  In chain (chains_async_upto 2) -> oracle (obs_of chain) = true /\ agree (obs_of chain) = true.
+Proof. exact model_async_satisfies_oracle_small. Qed.
+
 (** The same for the event path: 3100 cases (0-2 handlers with/without ack parameter x every chain
     of <= 4 accepting/rejecting middlewares x client ack or not x 5 argument lists x decodable or
     not): the model's prediction satisfies the event oracle. *)
@@ -135,13 +151,16 @@ Theorem C12_model_events_satisfy_oracle_small : forall c,
 Proof. exact model_events_satisfy_oracle_small. Qed.
 
 (** Non-vacuity: three clients; the second is rejected by its second middleware after both
-    middlewares joined it to rooms; an interleaved schedule. *)
+    middlewares joined it to rooms and the first one also started a Join on a goroutine, which gets
+    hold of joinMu before the rejection and finishes while the clean-up waits; an interleaved
+    schedule. *)
 Example C12_example :
-  let a := mkMwb [[1]]%N Accept in
-  let r := mkMwb [[2; 3]]%N (Reject (RStr [7]%N)) in
+  let a := mkMwb [[1]]%N Accept [[5]]%N in
+  let r := mkMwb [[2; 3]]%N (Reject (RStr [7]%N)) [] in
   let ts0 := [new_adm 10 1 [a; a]; new_adm 11 2 [a; r; a]; new_adm 12 3 []]%N in
-  let sched := flat_map (fun _ => [(0, false); (1, false); (2, false); (0, true); (2, true)]%nat)
-                        (seq 0 12) in
+  let sched := flat_map (fun _ => [(0, WMain); (1, WMain); (1, WJoin 0); (2, WMain); (0, WHandler);
+                                   (2, WHandler); (0, WJoin 1)]%nat)
+                        (seq 0 14) in
   let '(s, ts) := run sched (init ts0) in
   fresh ts0 /\
   map t_pc ts = [PAdmitted; PRejected (RStr [7]%N); PAdmitted] /\
@@ -149,6 +168,7 @@ Example C12_example :
   map fst (a_sids (adp s)) = [10; 12]%N /\
   mw_calls 11%N (trace s) = [0; 1]%nat /\
   packets 11%N (trace s) = [PktConnectError (MText [7]%N)] /\
+  map snd (flat_map t_js ts) = [JNew; JDone; JDone] /\
   handler_runs 10%N (trace s) = 1%nat /\ handler_runs 11%N (trace s) = 0%nat.
 Proof.
   vm_compute. repeat split; auto; repeat constructor; simpl; intuition discriminate.
